@@ -33,6 +33,7 @@ def run(ck):
     ck.rule("C13.R2", "buffer is cleared before formatting starts", floor=1)
     ck.rule("C13.R3", "single-line formatters end each Ok path with exactly one newline write", floor=3)
     ck.rule("C13.R4", "writer combinators route as their definition denotes", floor=9)
+    ck.rule("C13.R11", "every span in scope is written with its fields: the only reason not to write a span's stored fields is that there are none", floor=3)
     ck.rule("C13.R10", "every field a formatter's visitor is handed ends up in the record: no record_* path drops a field (except after an earlier write error)", floor=4)
     ck.rule("C13.R9", "formatter options have the polarity of their name: nothing is written because a display_* flag is off", floor=4)
     ck.rule("C13.R8", "a formatting panic the caller caught does not silence the thread: get_default's re-entrancy flag is given back on unwinding (as C02.R6)", floor=3)
@@ -49,6 +50,7 @@ def run(ck):
     r7b(ck, F)
     r9(ck, F)
     r10(ck, F)
+    r11(ck, F)
     from rules import C02
     C02.r6(ck, F, rid="C13.R8")
 
@@ -404,7 +406,9 @@ def r9(ck, F):
                     other_on = [f_ for f_, v in g if f_ != flag and v]
                     if own:
                         seen.add(flag)
-                    if any(v == 0 or v is False for v in own) and not other_on:
+                    # the one documented cross-flag case: with thread names on, a thread without a name shows its id
+                    fallback = meth == "id" and "display_thread_name" in other_on
+                    if any(v == 0 or v is False for v in own) and not fallback:
                         bad.add("%s() at %s is produced when %s is off" % (meth, where(t["sp"]), flag))
         # JSON: the entry itself names the datum
         JSON_KEYS = {"timestamp": "display_timestamp", "level": "display_level", "target": "display_target", "threadName": "display_thread_name",
@@ -433,6 +437,44 @@ def r9(ck, F):
             ck.bad("C13.R9", key, where(b.raw["sp"]), "; ".join(sorted(bad)[:3]), fn=b.path)
         else:
             ck.ok("C13.R9", key, fn=b.path, detail=sorted(seen))
+
+
+def r11(ck, F):
+    """`every span in scope ... with its fields`: the text formatters print a span's FormattedFields behind an emptiness
+    test. The write must sit on the non-empty side, and nothing else may gate it."""
+    from rulekit.query import guards_of
+    for i in F.impls_of("tracing_subscriber::fmt::format::FormatEvent"):
+        if not i["self_ty"].startswith("tracing_subscriber::fmt::format::Format<"):
+            continue
+        kind = i["self_ty"].split("<", 1)[1].split(",")[0].rsplit("::", 1)[-1]
+        if kind == "Json":
+            continue            # the JSON formatter serialises the stored object (C14)
+        b = F.body(i["methods"].get("format_event") or "")
+        if not ck.anchor("C13.R11", "format_event for Format<%s>" % kind, b):
+            continue
+        key = "Format<%s>::format_event writes a span's fields unless they are empty" % kind
+        sites = []
+        problems = []
+        for x in [b] + F.closures_of(b):
+            for bb, t in x.calls():
+                if t["callee"].get("method") not in ("write_fmt", "write_str"):
+                    continue
+                g, _ = guards_of(x, bb)
+                e = [(a, v) for a, v in g if a.startswith("is_empty(") and "extensions(" in a]
+                if not e:
+                    continue
+                sites.append(bb)
+                if any(v != 0 for a, v in e):
+                    problems.append("the span's fields are written only when they are empty (at %s)" % where(t["sp"]))
+        if not sites:
+            # no emptiness test at all: the fields must then be written unconditionally -- look for a write fed by FormattedFields
+            fed = [1 for x in [b] + F.closures_of(b) for ty in x.locals if "FormattedFields" in ty]
+            if not fed:
+                problems.append("no write of the spans' FormattedFields found")
+        if problems:
+            ck.bad("C13.R11", key, where(b.raw["sp"]), "; ".join(sorted(set(problems))), fn=b.path)
+        else:
+            ck.ok("C13.R11", key, fn=b.path, detail="%d guarded write(s)" % len(sites))
 
 
 def r10(ck, F, rid="C13.R10", only=None):
